@@ -72,6 +72,16 @@ fn close(a: f64, b: f64, tol: f64) -> bool {
 }
 
 fn replay(line: &Value, e: &Embedding, want: &QWant, rep: &mut Report) {
+    replay_via(line, e, want, rep, false);
+    // the same estimator reached through Clone::clone_from onto an estimator that was built with
+    // another p and has seen other data (Clone is a stuttering step of the specification); short
+    // streams only, to bound the cost
+    if line["data"].as_array().map(|d| d.len() <= 6).unwrap_or(false) && want.prop != "C18" {
+        replay_via(line, e, want, rep, true);
+    }
+}
+
+fn replay_via(line: &Value, e: &Embedding, want: &QWant, rep: &mut Report, via_clone_from: bool) {
     rep.replays += 1;
     let prop = want.prop.as_str();
     let pr = rat(&line["p"]);
@@ -85,6 +95,14 @@ fn replay(line: &Value, e: &Embedding, want: &QWant, rep: &mut Report) {
         let mut qt = Quantile::new(p);
         for &x in &xs[..upto] {
             qt.add(x);
+        }
+        if via_clone_from {
+            let mut d = Quantile::new(if p == 0.25 { 0.75 } else { 0.25 });
+            for k in 0..(upto % 7) {
+                d.add(1000.0 - k as f64);
+            }
+            d.clone_from(&qt);
+            return d;
         }
         qt
     };
@@ -198,6 +216,13 @@ fn replay(line: &Value, e: &Embedding, want: &QWant, rep: &mut Report) {
             let mut qt = Quantile::new(pp);
             for &x in &xs {
                 qt.add(x);
+            }
+            if via_clone_from {
+                let mut d = Quantile::new(if pp == 0.5 { 1.0 } else { 0.5 });
+                d.add(-1000.0);
+                d.add(1000.0);
+                d.clone_from(&qt);
+                qt = d;
             }
             let got = qt.quantile();
             rep.evaluations += 1;
